@@ -75,7 +75,9 @@ def run(chk, tier):
     import orphan
     nor = orphan.run(chk, P, ["topology.c"])
     chk.floor("R-ORPHAN", "release sites x child lists", nor, 12)
-    chk.decided += ["compaction of targets/initiators after a refresh copies the surviving entry down, never the dropped one over it",
+    chk.decided += ['parallel arrays of a distances structure are compacted together before its count is lowered',
+                    'an object removed from the tree is freed only after each of its non-empty child lists was handed on',
+                    "compaction of targets/initiators after a refresh copies the surviving entry down, never the dropped one over it",
                     "restrict: see C08", "allow/restrict leave the topology untouched on EINVAL (no write before any EINVAL exit)",
                     "Group/Misc insertion, cpukinds registration, distances commit re-establish derived state on their success paths",
                     "gp_index of surviving objects never changes and userdata is never altered (who-may-write)", "cpusets/nodesets never mixed",
